@@ -88,6 +88,77 @@ def _in_filter(f, c):
   return c in set(f)
 
 
+def _write_sequences(tier):
+  """every sequence (length <= 3; 4 in the thorough tier) of writes through a root scope, its child 'mid' and its
+  grand-child 'mid/leaf' - leaf values and whole nested sub-trees - against one plain nested dict: after every
+  write every scope reads the same tree, and apply returns it"""
+  import itertools
+  import jax.numpy as jnp
+  from flax import core
+  ops = [
+    ('leaf', 'n', 1.0), ('leaf', 'n', 2.0), ('mid', 'k', 3.0),
+    ('root', 'mid', {'leaf': {'n': 10.0}}), ('root', 'mid', {'leaf': {'n': 11.0, 'm': 5.0}, 'k': 7.0}),
+    ('mid', 'leaf', {'n': 20.0}), ('root', 'top', 4.0),
+  ]
+  L = 3 if tier == 'quick' else 4
+  cases = 0
+
+  def plain(t):
+    from flax.core import FrozenDict
+    if isinstance(t, (dict, FrozenDict)):
+      return {k: plain(v) for k, v in t.items()}
+    return float(t)
+
+  def merge(dst, key, val):
+    if key in dst and isinstance(dst[key], dict) and isinstance(val, dict):
+      for k, v in val.items():
+        merge(dst[key], k, v)
+    else:
+      import copy
+      dst[key] = copy.deepcopy(val)
+  for seq in itertools.chain.from_iterable(itertools.product(range(len(ops)), repeat=n) for n in range(1, L + 1)):
+    cases += 1
+    ref = {'mid': {'leaf': {'n': 0.0}}}
+    log = []
+
+    def prog(scope):
+      mid = scope.push('mid')
+      leaf = mid.push('leaf')
+      sc = {'root': scope, 'mid': mid, 'leaf': leaf}
+      for i in seq:
+        who, key, val = ops[i]
+        v = jax_tree(val)
+        sc[who].put_variable('state', key, v)
+        tgt = ref if who == 'root' else (ref['mid'] if who == 'mid' else ref['mid']['leaf'])
+        merge(tgt, key, val)
+        seen = dict(root=plain(scope.variables()['state']), mid=plain(mid.variables()['state']), leaf=plain(leaf.variables()['state']))
+        want = dict(root=plain_ref(ref), mid=plain_ref(ref['mid']), leaf=plain_ref(ref['mid']['leaf']))
+        if seen != want:
+          log.append((i, seen, want))
+      return 0.0
+
+    def jax_tree(v):
+      return {k: jax_tree(x) for k, x in v.items()} if isinstance(v, dict) else jnp.asarray(v)
+
+    def plain_ref(t):
+      return {k: plain_ref(v) for k, v in t.items()} if isinstance(t, dict) else float(t)
+    variables = {'state': {'mid': {'leaf': {'n': jnp.asarray(0.0)}}}}
+    try:
+      _, out = core.apply(prog, mutable=['state'])(variables)
+    except Exception as e:  # noqa
+      return cases, dict(inputs=dict(program='scope write sequence', ops=[repr(ops[i]) for i in seq]), observed=f'raised {e!r}'[:300], violated='writes-returned')
+    if log:
+      i, seen, want = log[0]
+      return cases, dict(inputs=dict(program='scope write sequence', ops=[repr(ops[j]) for j in seq]),
+                         observed=f'after write {ops[i]!r} the scopes read {seen}, one nested dict gives {want}'[:500], violated='writes-visible')
+    if plain(out['state']) != plain_ref(ref):
+      return cases, dict(inputs=dict(program='scope write sequence', ops=[repr(ops[j]) for j in seq]),
+                         observed=f'apply returned {plain(out["state"])}, the writes amount to {plain_ref(ref)}'[:500], violated='writes-returned')
+    if plain(variables['state']) != {'mid': {'leaf': {'n': 0.0}}}:
+      return cases, dict(inputs=dict(program='scope write sequence', ops=[repr(ops[j]) for j in seq]), observed='the supplied variables were changed', violated='inputs-unchanged')
+  return cases, None
+
+
 def run(tier, seed):
   import jax
   import jax.numpy as jnp
@@ -142,13 +213,18 @@ def run(tier, seed):
         break
     if fails:
       break
+  if not fails:
+    n, f = _write_sequences(tier)
+    cases += n
+    if f:
+      fails.append(f)
   # linen: the module object is not changed by init/apply; bound submodule deep inside stays intact
   if not fails:
     f = _linen_check()
     cases += f[0]
     if f[1]:
       fails.append(f[1])
-  return dict(name=NAME, cases=cases, distinct=cases, bound='5 scope programs x 4 variable layouts x 14 mutable filters (+ linen module-object checks)',
+  return dict(name=NAME, cases=cases, distinct=cases, bound='5 scope programs x 4 variable layouts x 14 mutable filters (+ linen module-object checks); all write sequences of length <= 3 over 7 writes through root / child / grand-child scopes',
               failures=fails[:2], error=None)
 
 
@@ -200,6 +276,35 @@ def _linen_check():
       return n, dict(inputs=inputs, observed='sow changed the primary output', violated='observation-inert')
     if set(st.keys()) != {'intermediates'}:
       return n, dict(inputs=inputs, observed=f'returned collections {sorted(st.keys())}', violated='returned-set')
+  # observation features of an OUTER call do not leak into an apply nested inside a module method
+  class Block(nn.Module):
+    @nn.compact
+    def __call__(self, x):
+      h = nn.relu(nn.Dense(3, name='proj')(x))
+      self.sow('intermediates', 'feat', h)
+      return nn.Dense(2, name='out')(h)
+
+  class Probe(nn.Module):
+    backbone: nn.Module
+    backbone_vars: object
+
+    @nn.compact
+    def __call__(self, x):
+      y, st = self.backbone.apply(self.backbone_vars, x, mutable=['intermediates'])
+      n_entries = len(jax.tree_util.tree_leaves(st['intermediates']))
+      return nn.Dense(2, name='head')(st['intermediates']['feat'][0]) + y * n_entries
+  bb = Block()
+  bv = bb.init(jax.random.key(2), x)
+  probe = Probe(backbone=bb, backbone_vars=bv)
+  pv = probe.init(jax.random.key(3), x)
+  base = np.asarray(probe.apply(pv, x))
+  for cap in (False, True, (lambda mdl, method_name: True)):
+    n += 1
+    out = probe.apply(pv, x, capture_intermediates=cap, mutable=['intermediates'] if cap is not False else False)
+    y = out[0] if cap is not False else out
+    if not np.allclose(np.asarray(y), base):
+      return n, dict(inputs=dict(program='module that applies a frozen backbone inside its method', capture_intermediates=repr(cap)[:40]),
+                     observed='capture_intermediates on the outer call changed the primary output', violated='observation-inert')
   return n, None
 
 
